@@ -53,7 +53,10 @@ class Requirement:
                 ('multiple specifiers ({}) used in pkg-config requirement ' +
                  "for '{}'").format(self.version, self.name)
             )
-        return [SimpleRequirement(self.name, i) for i in specs]
+        # SpecifierSets iterate in hash order; sort so that the generated
+        # `.pc` file doesn't depend on the hash seed.
+        return [SimpleRequirement(self.name, i)
+                for i in sorted(specs, key=str)]
 
     def __hash__(self):
         return hash((self.name, self.version))
